@@ -14,7 +14,7 @@ import yaml
 FLOWIR_RICH = {
     'platforms': ['default', 'p1', 'p2'],
     'variables': {
-        'default': {'global': {'g1': 'G1', 'g2': 'G2', 'g3': 'G3'},
+        'default': {'global': {'g1': 'G1', 'g2': 'G2', 'g3': 'G3', 'c3': '%(c2)s/l3', 'c2': '%(c1)s/l2', 'c1': 'root'},
                     'stages': {0: {'s': 'S0'}, 1: {'s': 'S1'}}},
         'p1': {'global': {'g1': 'P1G1'}, 'stages': {1: {'s': 'P1S1'}}},
         'p2': {'global': {'g2': 'P2G2', 'g3': 'P2G3'}},
@@ -22,6 +22,7 @@ FLOWIR_RICH = {
     'environments': {
         'default': {'enva': {'X': 'x', 'Y': '$X:y', 'Z': '%(g3)s'},
                     'envb': {'B': 'b'},
+                    'envc': {'PLUGINS': '${LIBDIR}/plugins', 'LIBDIR': '$PREFIX/lib', 'PREFIX': '/opt/c15'},
                     'environment': {'D': 'd', 'DEFAULTS': 'PATH:HOME'}},
         'p1': {'enva': {'X': 'p1x'}},
     },
@@ -52,7 +53,7 @@ FLOWIR_RICH = {
          'references': ['C:ref', 'stage0.B:ref', 'data/d.txt:ref'],
          'override': {'p2': {'command': {'arguments': 'C:ref stage0.B:ref data/d.txt:ref P2 %(g2)s'}}}},
         {'name': 'F', 'stage': 1,
-         'command': {'executable': 'echo', 'arguments': 'C:output stage0.AA/out.txt:ref'},
+         'command': {'executable': 'echo', 'arguments': 'C:output stage0.AA/out.txt:ref %(c3)s', 'environment': 'envc'},
          'references': ['C:output', 'stage0.AA/out.txt:ref'],
          'workflowAttributes': {'aggregate': True}},
     ],
@@ -108,8 +109,8 @@ DSL_RICH = {
          'command': {'executable': 'echo', 'arguments': '%(msg)s', 'environment': {'PX': 'px', 'PY': 'py'}}},
         {'signature': {'name': 'worker', 'parameters': [{'name': 'input'}, {'name': 'tag'}]},
          'command': {'executable': 'echo', 'arguments': '%(input)s %(tag)s %(local)s',
-                     'environment': {'W': 'w'}},
-         'variables': {'local': 'loc'}},
+                     'environment': {'W3': '${W2}/three', 'W2': '$W/two', 'W': '/w'}},
+         'variables': {'local': '%(mid)s/loc', 'mid': '%(low)s/mid', 'low': 'low'}},
         {'signature': {'name': 'joiner', 'parameters': [{'name': 'a'}, {'name': 'b'}, {'name': 'c'},
                                                         {'name': 'legacy'}]},
          'command': {'executable': 'cat', 'arguments': '%(a)s %(b)s g.txt %(legacy)s',
@@ -122,7 +123,7 @@ DSL_FILES = {'data/d.txt': 'data d\n'}
 # ------------------------------------------------------------------------------------------------ DOSINI package
 # {relative path: [(section, [(option, value), ...]), ...]}; rendered with render_ini
 DOSINI_RICH = {
-    'conf/experiment.conf': [('ENV-ENVA', [('X', 'x'), ('Y', '$X:y')]), ('ENV-ENVIRONMENT', [('D', 'd')])],
+    'conf/experiment.conf': [('ENV-ENVA', [('Z', '${Y}/z'), ('Y', '$X:y'), ('X', 'x')]), ('ENV-ENVIRONMENT', [('D', 'd')])],
     'conf/experiment.p1.conf': [('ENV-ENVA', [('X', 'p1x')])],
     'conf/experiment.p2.conf': [('ENV-ENVB', [('B', 'p2b')])],
     'conf/experiment.p3.conf': [],
@@ -153,8 +154,8 @@ DOSINI_RICH_FILES = {'data/d.txt': 'data d\n', 'hooks/restart.py': 'def Restart(
 # components with exactly three (thorough: also four) options that the DOSINI parser knows; every group of options
 # that the parser folds into one shared FlowIR dictionary appears together at least once
 DOSINI_SMALL = {
-    'conf/experiment.conf': [('ENV-ENVA', [('X', 'x')])],
-    'conf/variables.conf': [('GLOBAL', [('g1', 'G1')])],
+    'conf/experiment.conf': [('ENV-ENVA', [('Z', '${Y}/z'), ('Y', '$X/y'), ('X', '/x')])],
+    'conf/variables.conf': [('GLOBAL', [('g1', '%(g2)s/1'), ('g2', '%(g3)s/2'), ('g3', 'G3')])],
     'conf/stages.d/stage0.conf': [
         ('A', [('executable', 'echo'), ('arguments', '%(g1)s'), ('environment', 'enva')]),
         ('B', [('executable', 'echo'), ('arguments', 'A:ref'), ('references', 'A:ref')]),
